@@ -12,6 +12,7 @@ XPath 1.0 implementation - part 3 (functions)
 """
 import math
 import decimal
+import re
 from collections.abc import Iterator
 from typing import Any
 
@@ -20,7 +21,7 @@ import elementpath.aliases as ta
 from elementpath.namespaces import XML_ID, XML_LANG
 from elementpath.datatypes import AnyURI, Float, DayTimeDuration, YearMonthDuration, \
     StringProxy, AnyAtomicType, Duration, UntypedAtomic
-from elementpath.helpers import get_double
+from elementpath.helpers import get_double, round_number
 from elementpath.xpath_nodes import XPathNode, ElementNode, TextNode, CommentNode, \
     ProcessingInstructionNode, DocumentNode, EtreeElementNode
 from elementpath.xpath_context import XPathSchemaContext
@@ -225,6 +226,9 @@ def evaluate__concat(self: XPathFunction, context: ta.ContextType = None) -> str
     )
 
 
+WHITESPACES_PATTERN = re.compile(r'[ \t\n\r]+')
+
+
 @method(function('string-length', nargs=(0, 1),
                  sequence_types=('xs:string?', 'xs:integer')))
 def evaluate__string_length(self: XPathFunction, context: ta.ContextType = None) -> int:
@@ -249,7 +253,8 @@ def evaluate__normalize_space(self: XPathFunction, context: ta.ContextType = Non
         arg = self.string_value(self.get_argument(context, default_to_context=True, default=''))
     else:
         arg = self.get_argument(context, default_to_context=True, default='', cls=str)
-    return ' '.join(arg.strip().split())
+    # Only the XML whitespace characters are separators (e.g. not the no-break space)
+    return ' '.join(x for x in WHITESPACES_PATTERN.split(arg) if x)
 
 
 @method(function('starts-with', nargs=2,
@@ -281,13 +286,12 @@ def evaluate__translate(self: XPathFunction, context: ta.ContextType = None) -> 
         message = "the 3rd argument of fn:translate() cannot be the empty sequence"
         raise self.error('XPTY0004', message)
 
-    if len(map_string) == len(trans_string):
-        return arg.translate(str.maketrans(map_string, trans_string))
-    elif len(map_string) > len(trans_string):
-        k = len(trans_string)
-        return arg.translate(str.maketrans(map_string[:k], trans_string, map_string[k:]))
-    else:
-        return arg.translate(str.maketrans(map_string, trans_string[:len(map_string)]))
+    # If a character occurs more than once in the map string the first occurrence counts
+    table: dict[int, str | None] = {}
+    for k, ch in enumerate(map_string):
+        if ord(ch) not in table:
+            table[ord(ch)] = trans_string[k] if k < len(trans_string) else None
+    return arg.translate(table)
 
 
 @method(function('substring', nargs=(2, 3),
@@ -299,7 +303,7 @@ def evaluate__substring(self: XPathFunction, context: ta.ContextType = None) -> 
     item: str = self.get_argument(context, default='', cls=str)
     try:
         start = self.get_argument(context, index=1, required=True)
-        if math.isnan(start) or math.isinf(start):
+        if math.isnan(start) or math.isinf(start) and (start > 0 or len(self) > 2):
             return ''
     except TypeError:
         if isinstance(context, XPathSchemaContext):
@@ -308,11 +312,14 @@ def evaluate__substring(self: XPathFunction, context: ta.ContextType = None) -> 
             raise self.error('FORG0006', "the second argument must be xs:numeric") from None
     except ValueError as err:
         raise self.error('FORG0001', err) from None
-    else:
-        start = int(round(start)) - 1
+
+    # The selected characters are those at a position p, counted from one, that
+    # satisfies round(start) <= p < round(start) + round(length), where the rounding
+    # is the one of fn:round() (round half towards positive infinity).
+    first = 1 if math.isinf(start) else _round_half_up(start)
 
     if len(self) == 2:
-        return item[max(start, 0):]
+        return item[max(first - 1, 0):]
     else:
         try:
             length = self.get_argument(context, index=2, required=True)
@@ -327,10 +334,16 @@ def evaluate__substring(self: XPathFunction, context: ta.ContextType = None) -> 
             raise self.error('FORG0001', err) from None
 
         if math.isinf(length):
-            return item[max(start, 0):]
+            return item[max(first - 1, 0):]
         else:
-            stop = start + int(round(length))
-            return item[slice(max(start, 0), max(stop, 0))]
+            stop = first - 1 + _round_half_up(length)
+            return item[slice(max(first - 1, 0), max(stop, 0))]
+
+
+def _round_half_up(value: Any) -> int:
+    if abs(value) >= 2 ** 53:
+        return int(value)  # already an integral value
+    return int(round_number(value))
 
 
 @method(function('substring-before', nargs=2,
